@@ -175,10 +175,7 @@ theorem readStringLoop_spec (q : Cur) (l : Bytes) (c : Cur) (acc : Bytes) (buf :
       · simp at hd; omega
     obtain ⟨rfl, rfl⟩ := hrw
     have ht : taken = [r] := by
-      simp only [taken]
-      split
-      · exact encodeRune_ascii hb
-      · simp
+      simp [taken]
     rw [stringBody_plain r tl hb3 hb4]
     have h1 : isLineTerminatorStart r = false := by
       cases hs : isLineTerminatorStart r with
